@@ -51,6 +51,14 @@ def run(ctx):
         with open(f"{out}/alusched.cases") as fin:
             rc, mo = ctx["sh"]([ctx["driver_dir"] + "/p3r_driver_c11"], stdin=fin, timeout=3600)
         mlines = [l for l in mo.splitlines() if l.startswith("m ") or l == "bad-op"]
+        ichk = [l for l in mo.splitlines() if l.startswith("ichk")]
+        bad_ichk = [k for k, l in enumerate(ichk) if l != "ichk ok"]
+        if bad_ichk or len(ichk) != len(mlines):
+            violations.append({"class": "model-disagreement",
+                "what": "certificate entryInters = aluInteractions on the scheduled rows (link between the scheduled matrix and theorem "
+                        "schedule_preserves_bus) no longer checks",
+                "replay": {"correspondence": "scheduled rows' interactions vs entryInters", "first_case": (read_lines(f"{out}/alusched.cases")[bad_ichk[0]] if bad_ichk else "")[:4000]},
+                "no_input": True})
         ilines = read_lines(f"{out}/alusched.impl"); scases = read_lines(f"{out}/alusched.cases")
         blocks += len(scases)
         sd = 0
@@ -76,13 +84,16 @@ def run(ctx):
 
 
 CHECK = {
-    "lean_modules": ["P3R.Props.C11", "P3R.Props.C11Packed"],
+    "lean_modules": ["P3R.Props.C11", "P3R.Props.C11Packed", "P3R.Props.C11Sched"],
     "lean_exes": ["p3r_driver_c11"],
     "theorems": ["P3R.C11.laneAdd_iff", "P3R.C11.laneEq_iff", "P3R.C11.laneMulAdd_iff", "P3R.C11.laneBool_iff",
                  "P3R.C11.hornerSingle_iff", "P3R.C11.lane_zero_sel", "P3R.C11.extMulBinomial_eval_D2",
                  "P3R.C11.extMulBinomial_eval_D4", "P3R.C11.extMulBinomial_eval_D5", "P3R.C11.extMulBinomial_eval_D8", "P3R.C11.extMulQuintic_eval", "P3R.C11.packed2_iff", "P3R.C11.packed3_iff",
                  # every arity: the `while s < kk` legs of the model (packedLegs, D = 1) accept exactly chains of single steps
-                 "P3R.C11.packedLegs_one_succ", "P3R.C11.packedLegs_sound", "P3R.C11.packedLegs_complete"],
+                 "P3R.C11.packedLegs_one_succ", "P3R.C11.packedLegs_sound", "P3R.C11.packedLegs_complete",
+                 # the Horner schedule (model of compute_schedule, tied to the real AluAir every run): packing preserves the bus
+                 "P3R.C11.packed_net", "P3R.C11.sched_net", "P3R.C11.computeSchedule_tested", "P3R.C11.splitChains_cover",
+                 "P3R.C11.computeSchedule_cover", "P3R.C11.schedule_preserves_bus"],
     "run": run,
     "trusted_base": ["Const/Public tables have no row constraints (interaction shape only, covered by C09); recompose and Poseidon circuit AIRs are not modelled in Lean (see DESIGN)"],
     "assumptions": ["packed Horner legs are proved for every arity at D = 1 (packedLegs_sound/complete); for packed legs at D > 1 the tie is the value-exact correspondence and the tamper oracle only"],
